@@ -183,8 +183,9 @@ impl<'a> sval_ref::ValueRef<'a> for EmitValue<'a> {
             }
 
             fn bool(&mut self, value: bool) -> sval::Result {
+                // OTLP keys are strings; a scalar key is written as its text
                 if self.in_map_key {
-                    todo!()
+                    return sval::stream_display(&mut self.stream, value);
                 }
 
                 self.any_value_begin(&ANY_VALUE_BOOL_LABEL, &ANY_VALUE_BOOL_INDEX)?;
@@ -220,7 +221,7 @@ impl<'a> sval_ref::ValueRef<'a> for EmitValue<'a> {
 
             fn i64(&mut self, value: i64) -> sval::Result {
                 if self.in_map_key {
-                    todo!()
+                    return sval::stream_display(&mut self.stream, value);
                 }
 
                 self.any_value_begin(&ANY_VALUE_INT_LABEL, &ANY_VALUE_INT_INDEX)?;
@@ -230,7 +231,7 @@ impl<'a> sval_ref::ValueRef<'a> for EmitValue<'a> {
 
             fn f64(&mut self, value: f64) -> sval::Result {
                 if self.in_map_key {
-                    todo!()
+                    return sval::stream_display(&mut self.stream, value);
                 }
 
                 self.any_value_begin(&ANY_VALUE_DOUBLE_LABEL, &ANY_VALUE_DOUBLE_INDEX)?;
@@ -469,6 +470,31 @@ mod tests {
             ]),
             de
         );
+    }
+
+    #[test]
+    fn encode_kvlist_scalar_keys() {
+        let de =
+            common::AnyValue::decode(encode(emit::Value::capture_sval(&sval::MapSlice::new(&[
+                (1, "a"),
+                (-2, "b"),
+            ]))))
+            .unwrap();
+
+        assert_eq!(
+            kvlist_value([
+                ("1".into(), string_value("a")),
+                ("-2".into(), string_value("b")),
+            ]),
+            de
+        );
+
+        let de = common::AnyValue::decode(encode(emit::Value::capture_sval(
+            &sval::MapSlice::new(&[(true, 1.5)]),
+        )))
+        .unwrap();
+
+        assert_eq!(kvlist_value([("true".into(), double_value(1.5))]), de);
     }
 
     #[test]
